@@ -414,7 +414,8 @@ def r3_interruption_points(ctx) -> None:
     exp = exp_stmts[0]
     if isinstance(exp, ast.If):
         t = norm(exp.test)
-        if t in ("self.expand_verified or not self.ruledb.is_verified(label)", "not self.ruledb.is_verified(label) or self.expand_verified"):
+        lab = norm(loop.target.elts[0]) if isinstance(loop.target, ast.Tuple) and loop.target.elts else "label"
+        if t in (f"self.expand_verified or not self.ruledb.is_verified({lab})", f"not self.ruledb.is_verified({lab}) or self.expand_verified"):
             ctx.ok("R3", "a packet is skipped only for a verified class (and only when expand_verified is off)")
         else:
             ctx.violation("R3", exp.test, f"packets are expanded under `{t}`; only verified classes may be skipped")
